@@ -554,6 +554,9 @@ package eval
 //@   loop 1
 //@     invariant [cursor] (and (<= 0 $start) (<= $start $i) (<= $i (len $A)))
 //@     invariant [first-rune] (=> (< $start $i) (and (not (= (idx $A $start) 34)) (not (= (idx $A $start) 59))))
+//@     invariant [token-body-has-no-separator] (forall ((k Int)) (! (=> (and (<= $start k) (< k $i))
+//@          (and (not (isSpace (idx $A k))) (not (containsRune "()[];," (idx $A k))))) :pattern ((idx $A k))))
+//@     exit [token-is-maximal] (or (>= $i (len $A)) (isSpace (idx $A $i)) (containsRune "()[];," (idx $A $i)))
 //@ func parser.lex C06 C14
 //@   uses strings
 //@   requires [parser] (PARSER $p)
